@@ -231,6 +231,16 @@ func runCheck(id, only string, noEv bool) int {
 				return die(2, id, "%s:%d: function %s not found", d.File, d.Line, d.Fn)
 			}
 			e.opaque[fn.String()] = true
+		case "assume": // an assumed contract of a function that is not verified (trusted; listed in the evidence)
+			fn := resolveFn(all, pp, d.Fn)
+			if fn == nil {
+				return die(2, id, "%s:%d: function %s not found", d.File, d.Line, d.Fn)
+			}
+			c := &Contract{D: d, Fn: fn}
+			if m := argVal(d, "modifies"); m != "" {
+				c.Modifies = strings.Split(m, ",")
+			}
+			e.contracts[fn.String()] = c
 		case "verify", "lemma", "bounded":
 			if d.Kind == "verify" && hasArg(d, "modular") {
 				fn := resolveFn(all, pp, d.Fn)
